@@ -81,6 +81,7 @@ func pingenMain(args []string) {
 }
 
 type pinServer struct {
+	redir atomic.Value /* string: while non-empty, answer every request with a redirect to this URL */
 	leaf  *genCert
 	srv   *httptest.Server
 	hits  atomic.Int64
@@ -189,6 +190,12 @@ func pinMain(args []string) {
 				}
 				ps.srv = httptest.NewUnstartedServer(http.HandlerFunc(func(w http.ResponseWriter, r *http.Request) {
 					ps.hits.Add(1)
+					if to, _ := ps.redir.Load().(string); "" != to {
+						http.NewResponseController(w).EnableFullDuplex() /* answer without waiting for the rest of the upload */
+						w.Header().Set("Connection", "close")
+						http.Redirect(w, r, to, http.StatusFound)
+						return
+					}
 					rc := http.NewResponseController(w)
 					rc.EnableFullDuplex() /* as curlrevshell's /io handler does */
 					w.Header().Set("Connection", "close")
@@ -222,6 +229,14 @@ func pinMain(args []string) {
 				}
 			}
 			h0 := srv.hits.Load()
+			var rt *pinServer
+			var rt0 int64
+			if _, ok := m["redirect"].(float64); ok { /* the called server answers with a redirect to ANOTHER https server */
+				rt = servers[num(m["redirect"])]
+				rt0 = rt.hits.Load()
+				srv.redir.Store(rt.srv.URL + simpleshell.IOPath)
+				defer srv.redir.Store("")
+			}
 			in, outr, eshell := simpleshell.NewEchoShell()
 			go func() { io.WriteString(in, "shell-output\n"); in.Close() }()
 			_ = outr
@@ -250,7 +265,11 @@ func pinMain(args []string) {
 			if nil != nested && num(m["srv"]) == num(m["nested"].(map[string]any)["srv"]) && true == nested["hit"] {
 				hitNow-- /* the nested call's own request */
 			}
-			res := map[string]any{"i": m["i"], "hit": hitNow > 0, "global": globalState(), "fp": hx([]byte(fp)), "proxied": proxied.Load()}
+			redirHit := false
+			if nil != rt {
+				redirHit = rt.hits.Load() > rt0
+			}
+			res := map[string]any{"i": m["i"], "redir_hit": redirHit, "hit": hitNow > 0, "global": globalState(), "fp": hx([]byte(fp)), "proxied": proxied.Load()}
 			if nil != nested {
 				res["nested"] = nested
 			}
